@@ -179,7 +179,21 @@ def gen_class(rnd, name, idx):
         c["required"] = sorted(rnd.sample([f["name"] for f in c["fields"]], rnd.randint(0, 2)))
     if rnd.random() < 0.25:
         c["undefined"] = True
+    if not immutable and rnd.random() < 0.25:
+        # inherited (and possibly redeclared) fields: __eq__ / __getstate__ must see the fields of every base
+        c["base"] = rnd.choice(["Inner", "Sub", "Other"])
     return c
+
+
+def all_fields_view(c, ctx):
+    """The class AST with the fields and required names of the whole inheritance chain (for generating
+    arguments); the AST itself (with its base) is what replays and class sources use."""
+    if not c.get("base"):
+        return c
+    v = dict(c)
+    v["fields"] = ctx.all_fields(c["name"])
+    v["required"] = ctx.resolved(c["name"])["required"]
+    return v
 
 
 RICH_SHAPES = [sh for sh in CG.shapes(2) if sh[0]]
@@ -1041,6 +1055,38 @@ def sharing_check(rep, stream, c, ctx, kw, hcases, shape_key):
                                "unobservable": any(s.startswith("shared-but-no-observable-effect") for s in stats)})
 
 
+def deep_lockstep_check(rep, stream, c, ctx, kw, shape_key):
+    """Lock-step changes of EVERY mutable object reachable from the copy (any depth) against a regularly
+    constructed instance; the unpickled copy gets the two internal attributes __getstate__ drops put back
+    first (their loss is the known finding C11-unpickled-lost-internal-state, detected by the histories)."""
+    cls = ctx.classes[c["name"]]
+    build = lambda: cls(**S.realize_kwargs(kw, ctx))
+    for kind in ("deepcopy", "pickle"):
+        try:
+            res = CG.deep_lockstep(build, kind, public_state, same_outcome, repaired if kind == "pickle" else None)
+        except (pickle.PicklingError, TypeError, AttributeError) as ex:
+            if kind == "pickle" and not _picklable(cls, kw, ctx):
+                continue
+            res = [("harness-raises:" + type(ex).__name__, "inst", [], repr(ex))]
+        except Exception as ex:  # noqa
+            res = [("harness-raises:" + type(ex).__name__, "inst", [], repr(ex))]
+        rep.count(stream, 1, (kind, "deep", shape_key, bool(res)))
+        rep.stat(stream, kind + ":deep-lockstep:" + ("diverges" if res else "ok"))
+        for sym, k, path, what in res:
+            key = "independence/%s/deep:%s:%s" % (kind, sym, k)
+            if kind == "pickle" and sym == "initial-state-differs":
+                x = build()
+                lost = [a for a, _ in inst_state(x)[2] if a not in dict(inst_state(CG.make_copy(kind, x))[2])]
+                fields = set(cls.get_all_fields_by_name().keys())
+                if lost and all(a not in fields for a in lost):
+                    key = "pickle/extra-attrs-lost"
+            if kind == "deepcopy" and sym == "initial-state-differs":
+                x0 = build()
+                key = "copy/deepcopy/state-differs:" + diag_deepcopy_state(x0, copy.deepcopy(x0), c)
+            rep.finding("C11/" + key, what, {"class": c, "kwargs": [kw], "scenario": "deep-lockstep", "copy": kind,
+                                             "python": sharing_python(c, ctx, kw, kind)})
+
+
 def lattice_stream(rep, tier, hcases):
     """Deterministic enumeration: every chain (length <= 3, thorough 4) of tuple / list / deque / dict value /
     set / frozenset ending in a nested mutable Structure or in numbers, held by a typed field, an Anything
@@ -1062,6 +1108,7 @@ def lattice_stream(rep, tier, hcases):
             n += 1
             keep = [] if (len(chain) >= 4 and n % 3) else hcases
             sharing_check(rep, "sharing-lattice", c, ctx, kw, keep, (holder, chain, leaf))
+            deep_lockstep_check(rep, "sharing-lattice", c, ctx, kw, (holder, chain, leaf))
 
 
 def evaluate_heaps(hcases, tag="c11h"):
@@ -1181,6 +1228,16 @@ def replay(obj):
         for st in stats:
             print("graph    :", st)
         print("required : no mutable object reachable from both the original and its", obj["copy"])
+    elif obj.get("scenario") == "deep-lockstep":
+        build = lambda: cls(**S.realize_kwargs(kws[0], ctx))
+        print("class    :", S.class_src(c))
+        print("instance :", build(), "\ncopy     :", obj["copy"])
+        rr = core.Report("C11", "quick")
+        rr.known = []
+        deep_lockstep_check(rr, "replay", c, ctx, kws[0], ())
+        fails = [(v["key"].split("/", 1)[1], v["what"], {}) for v in rr.violations]
+        print("required : every mutable object reachable from the", obj["copy"], "behaves like the one at the same place of a "
+              "regularly constructed instance, and the original does not change")
     elif obj.get("scenario") == "copy":
         x = cls(**S.realize_kwargs(kws[0], ctx))
         fails, y = check_copy(obj["copy"], x, c)
@@ -1269,10 +1326,12 @@ def run(rep, tier):
     groups = []
     for c in keep:
         cls = ctx.classes[c["name"]]
-        kws = gen_group(rnd, c, ctx)
+        kws = gen_group(rnd, all_fields_view(c, ctx), ctx)
         if not kws:
             rep.stat("classes", "no-valid-instance")
             continue
+        if c.get("base"):
+            rep.stat("classes", "inherits:" + c["base"])
         labels = [l for l, _ in kws]
         insts = [cls(**S.realize_kwargs(kw, ctx)) for _, kw in kws]
         fails, eq, strs, hs = check_group(insts, labels)
@@ -1319,6 +1378,8 @@ def run(rep, tier):
         for i in sorted(set([0] + [k for k, l in enumerate(labels) if l in ("extra", "permuted", "changed")][:2])):
             sharing_check(rep, "sharing-generated", c, ctx, kws[i][1], hcases,
                           (labels[i], tuple(sorted(f["field"]["t"] for f in c["fields"]))))
+            deep_lockstep_check(rep, "sharing-generated", c, ctx, kws[i][1],
+                                (labels[i], tuple(sorted(f["field"]["t"] for f in c["fields"]))))
         # mutation histories on the copies
         for kind in ("deepcopy", "pickle", "copy"):
             for _ in range(nhist if kind != "copy" else 1):
